@@ -58,6 +58,10 @@ def main():
             out['apply_error'] = o[-500:]
         rc, o = sh('/venv/bin/python -m pytest -q -p no:cacheprovider --timeout=900 2>&1 | tail -3', cwd=sv, env={'PYTHONDONTWRITEBYTECODE': '1'})
         m = re.search(r'(\d+) failed, (\d+) passed', o)
+        if not (m and m.group(1) == '3' and m.group(2) == '164'):
+            # test_bad_command / the cookie tests share ~/.dbus-keyrings and flake when several suites run at once: once more
+            rc, o = sh('/venv/bin/python -m pytest -q -p no:cacheprovider --timeout=900 2>&1 | tail -3', cwd=sv, env={'PYTHONDONTWRITEBYTECODE': '1'})
+            m = re.search(r'(\d+) failed, (\d+) passed', o)
         out['tests'] = m.group(0) if m else o[-200:]
         out['tests_ok'] = bool(m and m.group(1) == '3' and m.group(2) == '164')
         rc, o = sh('/venv/bin/python %s' % demo, cwd=d, env=env, timeout=600)
